@@ -5,6 +5,7 @@ from ..words import Seq, Seg, Atom, Unlocatable
 from ..beval import Unsupported
 from ..core import AnalysisError
 from ..fold import fold, CannotFold
+from .. import shape
 from .c07 import inner
 
 TK = "discopy.quantum.tk"
@@ -290,13 +291,14 @@ def check_adjacent(ctx, fn):
     ctx.need(loop is not None and isinstance(loop.target, ast.Tuple), "make_units_adjacent has no loop over the other qubits")
     iv = loop.target.elts[0].id
     first = loop.body[0]
-    ctx.need(isinstance(first, ast.Assign) and isinstance(first.targets[0], ast.Tuple) and [t.id for t in first.targets[0].elts] == ["source", "target"], "make_units_adjacent does not bind source, target first")
+    st_ = shape.values_of(loop.body, ["source", "target"])
+    ctx.need(st_ is not None, "make_units_adjacent does not bind source, target first")
     ev0 = LinEv({iv: Lin.of(0)})
-    tgt = ev0.ev(first.value.elts[1])
+    tgt = ev0.ev(st_.elts[1])
     ctx.ob("R13.10", TK + ".from_tk.make_units_adjacent:target", tgt == Lin.var("offset") + 1, found="target = %r for the second qubit" % (tgt,), required="offset + 1: right after the first qubit", mod=TK, node=first,
            sig="adjacent-target")
-    chain = loop.body[1]
-    ctx.need(isinstance(chain, ast.If), "make_units_adjacent: no case distinction on source / target")
+    chain = next((x for x in loop.body if isinstance(x, ast.If)), None)
+    ctx.need(chain is not None, "make_units_adjacent: no case distinction on source / target")
     arms, cur = [], chain
     while True:
         arms.append((cur.test, cur.body))
@@ -348,10 +350,12 @@ def check_adjacent(ctx, fn):
                 hi = ev.ev(e.slice.upper) if e.slice.upper is not None else None
                 return row.slice(lo, hi, facts), (lo if lo is not None else Lin.of(0)), (hi if hi is not None else row.length)
             try:
-                lr = next(x for x in taken if isinstance(x, ast.Assign) and isinstance(x.targets[0], ast.Tuple) and [t.id for t in x.targets[0].elts] == ["left", "right"])
+                lrv = shape.values_of(taken, ["left", "right"])
+                if lrv is None:
+                    raise StopIteration
                 sw = next(x for x in taken if isinstance(x, ast.Assign) and ast.unparse(x.targets[0]) == "swap")
                 ctx.need(isinstance(sw.value, ast.Call) and ast.unparse(sw.value.func).endswith(".swap") and len(sw.value.args) == 2, "make_units_adjacent: swap is not Id.swap(A, B)")
-                (left, _, l_hi), (right, r_lo, _) = sl(lr.value.elts[0]), sl(lr.value.elts[1])
+                (left, _, l_hi), (right, r_lo, _) = sl(lrv.elts[0]), sl(lrv.elts[1])
                 (A, a_lo, a_hi), (B, b_lo, b_hi) = sl(sw.value.args[0]), sl(sw.value.args[1])
             except Unlocatable as e:
                 ctx.ob("R13.10", "%s.from_tk.make_units_adjacent[%s]" % (TK, name), False, found=str(e), required="slices of the current row located by source / target / offset", mod=TK, node=chain, sig="adjacent:" + name)
